@@ -27,4 +27,7 @@ def check(model, tier):
     expressions.r12_4_operand_roles(ctx)
     expressions.r12_6_factories(ctx)
     expressions.r13_1_as_trivial(ctx, rule="R12.5")
+    from ..rules import rangesql
+
+    rangesql.r12_7_range_membership(ctx)
     return run
